@@ -1089,6 +1089,11 @@ pub fn core_ops_for(prop: &str) -> Vec<Op> {
             Op::Wd(0), Op::Wd(2), Op::WdAgain(0), Op::Wd(4), Op::Mint(0), Op::Mint(1), Op::Mint(3), Op::Proposal(0), Op::Donate,
             Op::Fee(0), Op::Fee(2), Op::Coll(1), Op::RefIn(3), Op::MintAndOutput,
         ],
+        "C09" | "C10" => vec![
+            Op::In(0, 0), Op::In(7, 0), Op::In(7, 1), Op::In(14, 0), Op::In(14, 2), Op::In(8, 0), Op::In(11, 0),
+            Op::Mint(0), Op::Mint(5), Op::Mint(2), Op::Mint(4), Op::Cert(25), Op::Cert(16), Op::Wd(1), Op::Wd(3), Op::Wd(5), Op::Vote(4), Op::Vote(5),
+            Op::Proposal(3), Op::Proposal(4), Op::ExtraDatum(0), Op::ExtraDatum(3),
+        ],
         _ => ops_for(prop),
     }
 }
@@ -1129,8 +1134,9 @@ pub fn depth_for(prop: &str, tier: Tier) -> usize {
         ("C05", true) | ("C06", true) | ("C07", true) | ("C03", true) => 3,
         ("C18", false) | ("C16", false) => 4,
         ("C18", true) | ("C16", true) => 5,
-        (_, false) => 5,
-        (_, true) => 6,
+        // C09 / C10: plus the deep pass (one level deeper over a 22-operation core alphabet)
+        (_, false) => 4,
+        (_, true) => 5,
     }
 }
 
@@ -1261,7 +1267,7 @@ pub fn explore_for(prop: &str, tier: Tier, seed: u64, rep: &mut Report) {
     rep.bound("builder_methods", serde_json::json!(methods_for(prop, tier).iter().map(|m| format!("{:?}", m)).collect::<Vec<_>>()));
     rep.bound("builder_configs", serde_json::json!(configs_for(prop, tier).iter().map(|c| config(*c).0).collect::<Vec<_>>()));
     rep.add("builder (BFS over operation histories)", &format!("all histories to depth {} with canonical-state dedup; every (method x config) in every state; RNG <= 1 deviation", depth), st);
-    if matches!(prop, "C05" | "C06" | "C07" | "C03") {
+    if matches!(prop, "C05" | "C06" | "C07" | "C03" | "C09" | "C10") {
         let f = scenario_for(prop, "builder_deep", tier).unwrap();
         let core = core_ops_for(prop);
         let st = bfs("builder_deep", &*f, core.len(), depth + 1, &opts);
